@@ -143,7 +143,8 @@ theorem reasonOf_auth {e : Why} (h : e.isAuth = true) : reasonOf e = Gen.N.ErrAu
 def Shape (r : Result) : Prop :=
   match r.outcome with
   | .welcome sid _ w =>
-    r.joined = true ∧ ∃ pre, r.sent = pre ++ [.welcome sid w] ∧ OnlyChallenges pre
+    -- WELCOME is the last message; it is missing only when it was dropped at a full queue
+    r.joined = true ∧ ∃ pre, OnlyChallenges pre ∧ (r.sent = pre ++ [.welcome sid w] ∨ r.sent = pre)
   | .abort reason why =>
     r.joined = false ∧ reason = reasonOf why ∧ why.isDrop = false ∧
       ∃ pre, r.sent = pre ++ [.abort reason] ∧ OnlyChallenges pre
@@ -173,7 +174,10 @@ theorem attachRealm_shape (fx : Facts) (rc : RealmCfg) (created : Option RealmCf
     · split
       · exact abortWith_shape hsent rfl
       · simp only [Shape]
-        exact ⟨trivial, _, rfl, hsent⟩
+        refine ⟨trivial, _, hsent, ?_⟩
+        split
+        · exact Or.inr rfl
+        · exact Or.inl rfl
 
 theorem attach_shape (fx : Facts) (rt : RouterCfg) (env : Env) (arr : List Arrival) :
     Shape (attach fx rt env arr) := by
